@@ -39,6 +39,13 @@ def generate(ctx):
                "module": rng.random() < 0.5, "seed": rng.randrange(1 << 31),
                "zeros": rng.choice(["some", "some", "all", "none"]), "ones": rng.random() < 0.6}
     yield from _saturated(rng, 400 if ctx.tier == "thorough" else 12)
+    # silence at zero intensity is a statement about every draw of the generator: very many zero-intensity element-steps
+    for i in range(320 if ctx.tier == "thorough" else 24):
+        kind = KINDS[i % 4]
+        dt = rng.choice([1.0, 0.5])
+        yield {"kind": kind, "dt": dt, "steps": 500, "refrac_steps": rng.choice([None, 2]), "compensate": False,
+               "frequency": rng.choice([50.0, 128.0, 400.0]), "shape": [8192], "online": i % 8 >= 4, "module": rng.random() < 0.5,
+               "seed": rng.randrange(1 << 31), "zeros": "all", "ones": False, "storm": True}
 
 
 def _saturated(rng, n):
@@ -145,6 +152,8 @@ def run_case(ctx, desc):
     ctx.count("reproducibility_checks")
     res = outs[0]
     zero = x == 0
+    if desc.get("storm"):
+        ctx.count("zero_intensity_element_steps_in_storms", int(zero.sum()) * steps)
     if bool(zero.any()):
         ctx.count("zero_intensity_elements", int(zero.sum()))
         if bool(res[:, zero].any()):
